@@ -79,6 +79,15 @@ def compare(impl, model):
     if impl == model == "bad-op":
         return fails
     isegs, msegs = impl.split(" | "), model.split(" | ")
+    if isegs and isegs[-1].startswith("kind=layoutdiff"):
+        # C03: the same events under two layouts must give the same answers (whatever the spec says)
+        ld = seg_parse(isegs[-1]).get("q", "")
+        isegs = isegs[:-1]
+        for q in [x for x in ld.split(",") if x]:
+            cls = ""
+            if q.isdigit() and int(q) < len(msegs):
+                cls = seg_parse(msegs[int(q)]).get("cls", "")
+            fails.append((cls_sig("layout-differs", cls), "query %s: the two layouts of the same events give different answers" % q))
     if len(isegs) != len(msegs):
         return [("e2e/protocol/segment-count", "impl %d segments, model %d" % (len(isegs), len(msegs)))]
     for qi, (a, b) in enumerate(zip(isegs, msegs)):
